@@ -168,6 +168,12 @@ def get_division_candidate(
                 include, x2.coefficients[idx2], 1
             )
 
+            # a quotient that is not a number (nan/inf coefficients) can not
+            # reduce anything; following it makes the dividend grow forever.
+            include = include & numpy.isfinite(candidate)
+            if not numpy.any(include):
+                continue
+
             # really big relative error makes division algorithm
             # into a convergence strategy which needs a cutoff.
             if numpy.all(numpy.abs(candidate) < cutoff):
